@@ -22,9 +22,8 @@ def as_types(names):
         m, _, c = n.rpartition(".")
         try:
             obj = getattr(importlib.import_module(m), c)
-            from skops.io._utils import get_type_name
-
-            if isinstance(obj, type) and get_type_name(obj) == n:
+            # reference naming (not skops' own helper): a type stands for "<module>.<__name__>", which is what dumps records
+            if isinstance(obj, type) and f"{obj.__module__}.{obj.__name__}" == n:
                 out.append(obj)
                 continue
         except Exception:
@@ -91,6 +90,22 @@ def c03_oracle(c, tmpdir, rng):
                 fails.append(f"entry-points: load(path) gave {o_f[0]} but loads(bytes) gave {o_b[0]} for trusted={T}")
         if len(fails) > 2:
             return fails
+    # one list object, edited in place between calls: every call is judged by what the list holds at that moment
+    if rep:
+        T_obj = []
+        seq = [("empty", lambda: None), ("extended", lambda: T_obj.extend(rep)), ("one removed", lambda: T_obj.remove(rep[0])),
+               ("restored", lambda: T_obj.append(rep[0])), ("cleared", lambda: T_obj.clear())]
+        for label, edit in seq:
+            edit()
+            missing = sorted(set(rep) - set(T_obj))
+            o = outcome(lambda: loads(c.data, trusted=T_obj))
+            if missing and (o[0] != "untrusted" or o[1] != missing):
+                fails.append(f"verdict-inexact: the same list object, {label} in place (now {list(T_obj)[:4]}): expected "
+                             f"UntrustedTypesFoundException{missing[:4]}, got {o[0]} {o[1] if o[0] != 'ok' else ''}")
+                break
+            if not missing and o[0] == "untrusted":
+                fails.append(f"audit-blocks: the same list object, {label} in place, misses nothing but load raised UntrustedTypesFoundException{o[1][:4]}")
+                break
     # enlarging T never changes a successfully loaded result
     oks = [(T, form, o) for T, form, o in results.get("ok", []) if o[0] == "ok"]
     for (T1, f1, o1), (T2, f2, o2) in zip(oks, oks[1:]):
@@ -128,6 +143,19 @@ def run(ctx):
         c = iocheck.Case()
         c.schema, c.members, c.origin = schema, {}, "wide"
         c.data = ioarch.make_zip(schema, {})
+        wide.append(c)
+    from skops.io import dumps as _dumps
+    from ..objgen import U as _U
+
+    for label, obj in (("nested-class", [_U.Inner(3), {"k": _U.Inner(4)}]), ("user-classes", [_U.Plain(1, [2]), _U.WithGetstate(3), _U.Inner(5)]),
+                       ("enum-and-nested", {"c": _U.Color.RED, "i": _U.Outer.Inner(1)})):
+        c = iocheck.Case()
+        try:
+            c.data = _dumps(obj)
+        except Exception:
+            continue
+        c.schema, _nm = ioarch.read_schema(c.data)
+        c.members, c.origin = {}, "dump:" + label
         wide.append(c)
     try:
         for c in wide + res["cases"]:
